@@ -656,6 +656,9 @@ def leaves_start_with_their_token(F, res, rule):
 
 
 def run(F, res, tier):
+    _lv = pcache.results(F).get("loop_viol") or {}
+    res.ob("L11", "parser-loops-progress", "every loop of the parser consumes a token per iteration (C02/P2): a loop that stands still ends in the progress guard's panic and no tree is built for the text", not _lv,
+           where="crates/syntax/src/parser.rs", how="loops that can go round without consumption: %s" % sorted(_lv)[:6] if _lv else "all loops progress")
     from rules import c14 as _c14u
     _c14u.text_positions_are_counted_in_bytes(F, res, rule="L10", crates=('syntax',))   # engine U: a token range or a lexer advance counted in characters loses the tail of every non-ASCII token
     R = pcache.results(F)
